@@ -25,7 +25,7 @@ def determine_indices_of_peaks_for_cleaned_array(values):
     diff = np.ediff1d(values, to_begin=0)
     # if negative then direction has switched
     # direction_switch = np.insert(direction_switch, 0, 0)
-    peak_indices = np.where(diff[1:] * diff[:-1] < 0)[0]
+    peak_indices = np.where(np.sign(diff[1:]) * np.sign(diff[:-1]) < 0)[0]
     peak_indices = np.insert(peak_indices, 0, 0)  # Include first and last value
     peak_indices = np.insert(peak_indices, len(peak_indices), len(values) - 1)
 
@@ -161,7 +161,7 @@ def get_zero_crossings_array_indices(values, keep_adj_zeros=False, tol=0.0):
         no_adj_is = np.where(diff_is > 1)[0]
         zero_indices = np.take(zero_indices, no_adj_is)
     # if negative then sign has switched
-    sign_switch = values[1:] * values[:-1]
+    sign_switch = np.sign(values[1:]) * np.sign(values[:-1])
     sign_switch = np.insert(sign_switch, 0, values[0])
     through_zero_indices = np.where(sign_switch < 0)[0]
     all_zc_indices = np.concatenate((zero_indices, through_zero_indices))
@@ -333,7 +333,7 @@ def get_switched_peak_array_indices(values, tol=0.0):
     for i in range(1, len(peak_values)):
         sgn = np.sign(last)
         adj_val = peak_values[i] + tol * sgn  # if val is -ve then this will make value more +ve
-        if adj_val * last <= 0:  # only add index if sign changes (negative number)
+        if np.sign(adj_val) * np.sign(last) <= 0:  # only add index if sign changes (negative number)
             i_max_set = np.argmax(np.abs(peak_values_set))
             new_peak_indices.append(peak_indices_set[i_max_set])
 
